@@ -28,6 +28,7 @@ func init() {
 	vfRegister("VerifC36_types", VerifC36_types)
 	vfRegister("VerifC36_compress", VerifC36_compress)
 	vfRegister("VerifC36_long", VerifC36_long)
+	vfRegister("VerifC36_ptrlimit", VerifC36_ptrlimit)
 }
 
 func c36nondot(label string) byte {
@@ -231,7 +232,11 @@ func c36build(m *Message, compress bool, prefix int) ([]byte, error) {
 }
 
 // c36roundtrip runs every oracle of C36 on m; returns the packed bytes and the plain (uncompressed) Builder bytes.
-func c36roundtrip(m *Message) (packed, plain []byte) {
+func c36roundtrip(m *Message) (packed, plain []byte) { return c36roundtripFrom(m, 0) }
+
+// c36roundtripFrom: as c36roundtrip, but only packed[from:] is recorded as an observation (large concrete padding in
+// front of the interesting part need not be stored with every sampled path).
+func c36roundtripFrom(m *Message, from int) (packed, plain []byte) {
 	packed, err := m.Pack()
 	vfAssert(err == nil, "well-formed message packs")
 	var u Message
@@ -255,7 +260,10 @@ func c36roundtrip(m *Message) (packed, plain []byte) {
 
 	vfAssert(len(comp) <= len(plain), "compression never makes the message longer")
 	vfAssert(c37eqBytes(comp, packed), "Builder with compression and Message.Pack produce the same bytes")
-	vfObserveBytes("packed", packed)
+	if from <= len(packed) {
+		vfObserveBytes("packed", packed[from:])
+	}
+	vfObserve("packed len", uint64(len(packed)))
 	vfObserve("plain len", uint64(len(plain)))
 	return packed, plain
 }
@@ -414,6 +422,82 @@ func VerifC36_long() {
 		_, err := m.Pack()
 		vfAssert(err != nil, "non-canonical name refused")
 		vfReach("non-canonical refused")
+	}
+	vfReach("end")
+}
+
+// Names around the 14-bit compression pointer limit (message offset 0x3FFF is the last one a pointer can refer to).
+// An unknown-type record with concrete padding pushes the owner name of the next record ("straddler", 3 labels
+// "pq.x.a." from the pool bytes, wire offsets S, S+3, S+5) to S = 0x4000 - d, d symbolic-by-fork: every alignment
+// of the three labels relative to the limit (all below, 1 or 2 labels beyond, first label exactly at 0x3FFF / 0x4000,
+// all beyond). Two later names (owner and CNAME/NS target, chosen from the pool and the straddler itself) then end in
+// suffixes of the straddler, so any suffix recorded for an offset that does not fit into a pointer is hit.
+// Oracles: all of c36roundtrip (names decode unchanged with Pack, Builder with and without compression).
+func VerifC36_ptrlimit() {
+	pool := c36newPool()
+	thorough := vfTier() > 0
+	straddler := c36name(pool.names[4].Data[0:2], pool.names[2].Data[0:1], pool.names[1].Data[0:1]) // "pq.x.a."
+	m := Message{Header: c36header()}
+	if !thorough || vfChoice("with question", 2) == 1 {
+		m.Questions = []Question{{Name: pool.names[3], Type: TypeA, Class: ClassINET}} // "y.z." (may equal "x.a."): entries at low offsets
+	}
+	padRec := func(n int) Resource {
+		pad := make([]byte, n)
+		for i := range pad {
+			pad[i] = byte(i*7 + 1)
+		}
+		return Resource{Header: ResourceHeader{Name: pool.names[0], Type: 65280, Class: ClassINET}, Body: &UnknownResource{Type: 65280, Data: pad}}
+	}
+	// offset at which the record after an empty padding record would start
+	m.Answers = []Resource{padRec(0)}
+	base, err := m.Pack()
+	vfAssert(err == nil, "prefix packs")
+	// d = 0x4000 - (offset of the straddler's first label): -1 and 0: nothing may be recorded; 1..3: only the first
+	// label is addressable; 4..5: the first two; >= 6: all three.
+	d := vfLen("distance below 0x4000", -vfTier(), 6+3*vfTier())
+	start := 0x4000 - d
+	m.Answers[0] = padRec(start - len(base))
+
+	var a4 AResource
+	copy(a4.A[:], vfBytes("a", 4))
+	c36place(&m, 0, c36resource(straddler, &a4))
+
+	later := func(label string) Name {
+		var k int
+		if thorough {
+			k = vfChoice(label, 6) // any pool name or the straddler
+		} else {
+			k = []int{1, 2, 4, 5}[vfChoice(label, 4)] // "a." "x.a." "pq.a." (shares only "a.") straddler
+		}
+		if k == 5 {
+			return straddler
+		}
+		return pool.names[k]
+	}
+	owner2 := later("later owner")
+	target2 := later("later target")
+	var body2 ResourceBody = &CNAMEResource{CNAME: target2}
+	sec2 := 0
+	if thorough && vfChoice("later body", 2) == 1 { // SRV in the additional section instead of CNAME in the answers
+		body2 = &SRVResource{Priority: vfU16("prio"), Weight: vfU16("weight"), Port: vfU16("port"), Target: target2}
+		sec2 = 2
+	}
+	c36place(&m, sec2, c36resource(owner2, body2))
+
+	packed, plain := c36roundtripFrom(&m, start-4)
+	vfAssert(len(packed) > 0x4000, "message extends beyond the pointer limit")
+	switch {
+	case d <= 0:
+		vfReach("name starts beyond the pointer limit")
+	case d == 1:
+		vfReach("name starts at the last addressable offset")
+	case d < 6:
+		vfReach("name straddles the pointer limit")
+	default:
+		vfReach("name entirely below the pointer limit")
+	}
+	if len(packed) < len(plain) {
+		vfReach("compression pointer emitted")
 	}
 	vfReach("end")
 }
